@@ -6,6 +6,15 @@ import os
 ROOT = os.path.dirname(os.path.dirname(os.path.abspath(__file__)))
 
 CHECKS = {
+    'C11': ('model_checking', '§7 C11',
+            'KevoSST transcribes writer (cuts, restart points, index = first keys, offset-labelled filters) and the lookup algorithms '
+            '(index scan, restart binary search with step-back, linear decode, block hand-over, Get with filter) operationally; TLC checks '
+            'SeekCorrect, GetCorrect, IterYieldsAllOnce, LastCorrect, CursorRefines, BloomNoFalseNegative and CorruptOpenFailsOrSubset '
+            'exhaustively for small shapes (negative configs must fail). TLC-generated table shapes with full seek/get/iter tables and '
+            'cursor programs are replayed on real files written by sstable.Writer in 4 byte shapes; single-byte corruption at every offset '
+            'of small files and structure boundaries of large ones must fail or yield only written entries (fault enumeration).',
+            'bytes are tokens in the spec (byte fidelity sampled in 4 shapes); single-byte damage only; no concurrency',
+            'TLC MC of transcribed algorithms + replay of generated shapes on real files + corruption enumeration'),
     'C20': ('model_checking', '§7 C20',
             'KevoConfig: configurations as records of boundary classes over all fields, Validate both declaratively and as the if-chain in '
             'source order, and the manifest life-cycle (save = validate, tmp, rename; load; truncate/corrupt/tamper; open with and without '
